@@ -73,6 +73,16 @@ def gen_namespace(rng, nsname, thorough, deps, want_blocks=True, main=True, gobj
         body = '/**\n' + ''.join(' * %s\n' % l if l else ' *\n' for l in text_lines) + ' */'
         comments.append([body, f, lines.take(f, len(text_lines) + 2)])
 
+
+    def type_section(ctype):
+        # a SECTION named after a type's lower-cased C name documents the same node as the type's
+        # own block (round 13); which of the two prevails must not depend on arrival order
+        block(['SECTION:%s' % ctype.lower(), '@short_description: about %s' % ctype, '@title: %s' % ctype, '',
+               'What the section says about %s.' % ctype] +
+              (['', 'Since: %s' % rng.choice(['0.8', '1.2', '1.4'])] if rng.random() < 0.6 else []) +
+              (['', 'Stability: %s' % rng.choice(['Stable', 'Unstable'])] if rng.random() < 0.4 else []),
+              rng.choice(apis))
+
     dep_types = []       # (ctype name) records of dependencies usable as pointer params
     for d in deps:
         for r in d.get('_records', []):
@@ -609,7 +619,9 @@ def gen_namespace(rng, nsname, thorough, deps, want_blocks=True, main=True, gobj
                            for n in rng.sample(['went', 'arrived'], rng.randint(0, 2)))
             dump[fn] = '<interface name="%s%s" get-type="%s">%s%s<prerequisite name="GObject"/></interface>' % (P, ifc, fn, props, sigs)
             if want_blocks and rng.random() < 0.5:
-                block(['%s%s:' % (P, ifc), '', 'An interface.'], f_typedefs)
+                block(['%s%s:' % (P, ifc), '', 'An interface.'] + (['', 'Since: 1.2'] if rng.random() < 0.5 else []), f_typedefs)
+                if rng.random() < 0.3:
+                    type_section(P + ifc)
         # GObject types of the dependencies (direct or nested): a class here may derive from one,
         # implement its interfaces, and have properties of its types
         dep_classes, dep_ifaces = [], []
@@ -768,7 +780,9 @@ def gen_namespace(rng, nsname, thorough, deps, want_blocks=True, main=True, gobj
             dump[fn] = '<class name="%s%s" get-type="%s" parents="%s"%s>%s%s%s</class>' % (
                 P, cl, fn, parents, ' abstract="1"' if rng.random() < 0.2 else '', impl, props, sigs)
             if want_blocks and rng.random() < 0.6:
-                block(['%s%s:' % (P, cl), '', 'A %s object.' % cl.lower()], f_typedefs)
+                block(['%s%s:' % (P, cl), '', 'A %s object.' % cl.lower()] + (['', 'Since: 1.2'] if rng.random() < 0.5 else []), f_typedefs)
+                if rng.random() < 0.3:
+                    type_section(P + cl)
             if rng.random() < 0.5:
                 en = cl + 'Error'
                 base = '%s_%s_ERROR' % (p.upper(), sc.upper())
